@@ -75,6 +75,9 @@ pub struct NodeSpec {
     pub max_out: Option<usize>,
     #[serde(default)]
     pub max_in: Option<usize>,
+    /// protocol name suffix; nodes with different suffixes do not share a protocol
+    #[serde(default)]
+    pub proto: Option<String>,
 }
 
 #[derive(Deserialize, Clone, Debug)]
@@ -421,7 +424,8 @@ pub async fn run_network(sc: Scenario) -> NetResult {
             continue;
         }
         let exec = NodeExec::new(sc.seed.wrapping_mul(1000).wrapping_add(node as u64), sc.perturb, log.clone(), node);
-        let mut b = RrBuilder::new(ProtocolName::from("/verif/rr/1"))
+        let pname = format!("/verif/rr/{}", ns.proto.as_deref().unwrap_or("1"));
+        let mut b = RrBuilder::new(ProtocolName::from(pname))
             .with_max_size(sc.max_size)
             .with_timeout(Duration::from_millis(sc.timeout_ms));
         if let Some(m) = ns.maxc {
@@ -588,6 +592,13 @@ pub async fn run_network(sc: Scenario) -> NetResult {
                     if let Some(Some(tx)) = obs_tx.get(st.o - 1) {
                         let _ = tx.send(ObsCmd::Die);
                     }
+                }
+            }
+            "freeze" | "thaw" => {
+                if let Some(p) = net.proxies.get(&(st.from, st.to)) {
+                    log.ev(0, "d", json!({"e": "cut", "from": st.from, "to": st.to, "dir": st.a, "after": 0}));
+                    p.ctl.freeze(st.a == "freeze");
+                    net.count("freeze_steps");
                 }
             }
             "cut" => {
